@@ -156,6 +156,7 @@ class Ctx:
         self.fresh = itertools.count(1)
         self.base_assumptions = []
         self.memo_hits = 0
+        self.extern_consts = {"std::time::SystemTime::UNIX_EPOCH": ("opaque", "UNIX_EPOCH"), "std::time::UNIX_EPOCH": ("opaque", "UNIX_EPOCH")}
 
     # -- solver helpers ---------------------------------------------------------------------------------------
     def feasible(self, pc, extra=None):
@@ -229,6 +230,8 @@ class Exec:
         key = name
         if key in ctx.const_cache:
             return ctx.const_cache[key]
+        if name in ctx.extern_consts:
+            return ctx.extern_consts[name]
         ent = ctx.funcs.get(name)
         if ent is None:
             # relative names: try suffix match, and promoted of the current function
@@ -274,6 +277,8 @@ class Exec:
         if kind in ("str", "bytes"):
             from .models import ConcStr
             return ("refval", ConcStr(val))
+        if kind == "zst":
+            return ("closure", val, ())
         if kind == "named":
             return self.eval_named_const(val, func)
         raise ExecError("const kind " + kind)
@@ -292,6 +297,8 @@ class Exec:
             if isinstance(val, tuple) and val[0] == "agg":
                 return val[1][p[1]]
             if isinstance(val, tuple) and val[0] == "enum":
+                return val[2][p[1]]
+            if isinstance(val, tuple) and val[0] == "closure":
                 return val[2][p[1]]
             if hasattr(val, "field"):
                 return val.field(p[1])
@@ -693,6 +700,8 @@ class Exec:
             return ("agg", tuple(v for _ in range(rv[2])))
         if k == "struct":
             return ("agg", tuple(self.operand(st, o) for _, o in rv[2]))
+        if k == "closure":
+            return ("closure", rv[1], tuple(self.operand(st, o) for _, o in rv[2]))
         if k == "variant":
             return ("enum", rv[2], tuple(self.operand(st, o) for o in rv[3]))
         raise ExecError("rvalue " + str(rv[0]))
@@ -843,6 +852,7 @@ class Exec:
                 dest, fname, argops, ret_bb = t[1], t[2], t[3], t[4]
                 args = [self.operand(st, a) for a in argops]
                 dest_ty = st.func.local_types.get(dest[1]) if dest and not dest[2] else None
+                st.cur_bb = bb
                 outcome = self.call(st, fname, args, dest_ty)
                 # outcome: list of (cond, value|Panic, heap-after|None)
                 if len(outcome) == 1 and outcome[0][0] is True:
@@ -901,6 +911,35 @@ class Exec:
             by_msg.setdefault(m, []).append(z3bool(c))
         panics = [(z3.Or(*cs) if len(cs) > 1 else cs[0], m) for m, cs in by_msg.items()]
         return Outcome(rets, panics, [], res.frame)
+
+    def closure_function(self, ctype):
+        """MIR body of a closure, located by the closure type that its first parameter mentions."""
+        cache = self.ctx.const_cache.setdefault("__closures__", {})
+        if ctype in cache:
+            return cache[ctype]
+        for name, f in self.ctx.funcs.items():
+            if isinstance(f, tuple) or "{closure#" not in name:
+                continue
+            if f.args and ctype in f.args[0][1]:
+                cache[ctype] = f
+                return f
+        raise ExecError("no MIR body for closure " + ctype)
+
+    def call_value(self, st, func, args):
+        """Inline `func` and merge its outcomes into ONE value (ite chain); returns (value, panic_condition)."""
+        ensure_parsed(func)
+        heap = self.copy_heap(st.heap)
+        heap[st.frame] = dict(st.locals)
+        sub = self.run_function(func, args, heap=heap, pc=st.pc)
+        if not sub.rets:
+            raise ExecError("inlined call never returns: " + func.name)
+        val = sub.rets[-1][1]
+        for c, v, _, _ in reversed(sub.rets[:-1]):
+            val = ite(c, v, val)
+        pan = False
+        for c, m in sub.panics:
+            pan = b_or(pan, c)
+        return val, pan
 
     def adopt_heap(self, st, hp):
         """After an inlined call: take over the (possibly modified) caller frames from the callee's heap view."""
